@@ -5,6 +5,7 @@ import (
 	"go/types"
 	"sort"
 	"strings"
+	"time"
 
 	"golang.org/x/tools/go/ssa"
 )
@@ -29,10 +30,15 @@ func verifyFunction(p *program, fn *ssa.Function, fc *funcContract, safetyOnly b
 	res = &funcResult{key: fnKey(fn), safetyOnly: safetyOnly}
 	x := newVC(p, fn, fc)
 	x.safetyOnly = false
+	x.t0 = time.Now()
 	defer func() {
 		if r := recover(); r != nil {
 			if ce, ok := r.(cevalErr); ok {
 				res.err = "contract error: " + ce.msg
+				return
+			}
+			if gb, ok := r.(genBudget); ok {
+				res.err = "generator budget: " + gb.msg
 				return
 			}
 			panic(r)
@@ -246,6 +252,14 @@ func (x *vc) script(o *obligation) string {
 	}
 	if strings.Contains(b.String(), "(streq ") {
 		b.WriteString(streqAxioms)
+	}
+	if body := b.String(); strings.Contains(body, "rv_") || strings.Contains(body, "kind_of_type") {
+		// the reflect model's declarations must precede their uses: rebuild with them after the prelude
+		rest := body[len(prelude):]
+		b.Reset()
+		b.WriteString(prelude)
+		b.WriteString(reflectPrelude)
+		b.WriteString(rest)
 	}
 	fmt.Fprintf(&b, "(assert %s)\n", o.guard)
 	fmt.Fprintf(&b, "(assert (not %s))\n", o.goal)
